@@ -26,19 +26,37 @@ def run(chk, cases, max_entries):
     chk.add_tlc("MC_WalkConc(the same trees, visits keyed by path alone: must be refuted)", old)
     if old.violation != "Confluent":
         raise lib.ToolError(f"vacuity: WalkConc.tla does not refute the path-only keying (got {old.violation})")
-    obs = [c for c in cases if c["opts"]["follow"] and c["opts"]["depth"] == -1 and len(c["entries"]) <= max_entries]
-    if not obs:
-        return 0
+    follow = [c for c in cases if c["opts"]["follow"] and c["opts"]["depth"] == -1]
+    # every schedule on the small trees (the state space grows exponentially with the width of the tree) ...
+    obs = [c for c in follow if len(c["entries"]) <= max_entries][:60]
+    # ... random schedules on the others
+    big = [c for c in follow if max_entries < len(c["entries"]) <= 40][:150]
     d = lib.mkscratch("wco", base=lib.BUILD)
     try:
-        cf = os.path.join(d, "cases.ndjson")
-        with open(cf, "w") as f:
-            for c in obs:
-                f.write(json.dumps(c) + "\n")
-        res = tlc("Obs_WalkConc.tla", "obs", "ObsCases", "TRUE", env={"CASES": cf}, workers=8)
-        chk.add_tlc(f"Obs_WalkConc({len(obs)} observed trees of <= {max_entries} entries with --follow-links: every schedule)", res)
-        if res.violation:
-            chk.violation(f"C09/model-on-observed-tree {res.violation}", "WalkConc.tla: on a tree of a real run the concurrent walk depends on the schedule", {"tlc": res.output[-2500:]})
-        return len(obs)
+        n = 0
+        if obs:
+            cf = os.path.join(d, "cases.ndjson")
+            with open(cf, "w") as f:
+                for c in obs:
+                    f.write(json.dumps(c) + "\n")
+            res = tlc("Obs_WalkConc.tla", "obs", "ObsCases", "TRUE", env={"CASES": cf}, workers=8)
+            chk.add_tlc(f"Obs_WalkConc({len(obs)} observed trees of <= {max_entries} entries with --follow-links: every schedule)", res)
+            if res.violation:
+                chk.violation(f"C09/model-on-observed-tree {res.violation}", "WalkConc.tla: on a tree of a real run the concurrent walk depends on the schedule", {"tlc": res.output[-2500:]})
+            n += len(obs)
+        if big:
+            cf = os.path.join(d, "big.ndjson")
+            with open(cf, "w") as f:
+                for c in big:
+                    f.write(json.dumps(c) + "\n")
+            cfg = os.path.join(lib.BUILD, "WalkConc_sim.cfg")
+            with open(cfg, "w") as f:
+                f.write("CONSTANTS\n  CaseSet <- ObsCases\n  KeyByCtx = TRUE\nINIT WInit\nNEXT WNext\nINVARIANTS Confluent NeverTooMuch\nCHECK_DEADLOCK FALSE\n")
+            res = lib.run_tlc("Obs_WalkConc.tla", cfg, workers=4, timeout=900, env={"CASES": cf}, coverage=False, simulate=1000, depth=400)
+            chk.add_tlc(f"Obs_WalkConc({len(big)} larger observed trees: 1000 random schedules)", res)
+            if res.violation:
+                chk.violation(f"C09/model-on-observed-tree {res.violation}", "WalkConc.tla: on a tree of a real run a sampled schedule of the concurrent walk ends with another selection", {"tlc": res.output[-2500:]})
+            n += len(big)
+        return n
     finally:
         lib.rmtree(d)
